@@ -62,10 +62,10 @@ def apply_mutant(d, m):
     s = open(path).read()
     cnt = s.count(m["old"])
     if cnt == 0:
-        raise SystemExit("mutant %s: old text not found in %s" % (m.get("name"), m["file"]))
+        raise LookupError("old text not found in %s" % m["file"])
     nth = m.get("nth", 0)
     if cnt > 1 and "nth" not in m and not m.get("all"):
-        raise SystemExit("mutant %s: old text occurs %d times; give nth or all" % (m.get("name"), cnt))
+        raise LookupError("old text occurs %d times in %s; give nth or all" % (cnt, m["file"]))
     if m.get("all"):
         s = s.replace(m["old"], m["new"])
     else:
@@ -126,7 +126,14 @@ def main():
         checks = a.check
     rc = 0
     for m in muts:
-        r = one(m, m.get("checks") or checks, a.tier, a.seed, not a.no_tests, a.v)
+        if "patch" in m and not os.path.isabs(m["patch"]):
+            m["patch"] = os.path.join(ROOT, m["patch"]) if not os.path.exists(m["patch"]) else m["patch"]
+        try:
+            r = one(m, m.get("checks") or checks, a.tier, a.seed, not a.no_tests, a.v)
+        except (LookupError, SystemExit) as ex:
+            print("%-8s %s  (%s)" % ("SKIPPED", m.get("name") or m.get("old"), ex))
+            sys.stdout.flush()
+            continue
         caught = any(c["exit"] == 1 for c in r["checks"].values())
         status = "CAUGHT" if caught else "MISSED"
         if not r["tests_pass"]:
